@@ -289,7 +289,7 @@ class Session:
             return ("tie", "the C++ reference driver died (not a statement about the C interface): " + note_x[:400])
         harn = [l for l in ic if "HARNESS-ERROR" in l]
         if harn:
-            return ("oracle", "a lifecycle function of a run-time described component got a misaligned pointer: " + harn[0][:300])
+            return ("oracle", "a lifecycle function of a run-time described component was called in a way no C++ type would be used (misaligned pointer, or assignment onto storage no object was ever built in): " + harn[0][:300])
         d = direct_diff(ic, ix, mc, mx)
         if d:
             return ("oracle", "observation %d: through the C interface `%s`, through the C++ interface `%s`" % (d[0], d[1][:400], d[2][:400]))
